@@ -26,6 +26,7 @@ import (
 )
 
 type Clause struct {
+	Props []string // non-empty: the clause belongs to these properties only
 	Text string
 	Expr ast.Expr
 	Line int
@@ -60,6 +61,7 @@ type Contract struct {
 	Iface    bool   // contract of an interface method: assumed for arbitrary implementations
 	Impl     string // "Type.Method": this function (or closure) must satisfy that interface contract
 	Lets     []*UseSpec
+	Running  []*Clause // checked and then assumed after every statement of the body
 	Trusted  bool // contract assumed, body not verified (listed in evidence)
 	Pure     bool
 	File     string
@@ -132,7 +134,7 @@ var langHdr = regexp.MustCompile(`^lang\s+([A-Za-z_][A-Za-z0-9_]*)\s*=\s*([a-z]+
 
 var poolHdr = regexp.MustCompile(`^pool\s+([A-Za-z_][A-Za-z0-9_]*)\s+(\S+)\s*:\s*(.*)$`)
 
-var clauseKeywords = []string{"func", "spec", "lemma", "lang", "pool", "interface", "implements", "let", "requires", "ensures", "modifies", "loop", "use", "assert", "inline", "trusted", "pure"}
+var clauseKeywords = []string{"func", "spec", "lemma", "lang", "pool", "interface", "implements", "let", "running", "requires", "ensures", "modifies", "loop", "use", "assert", "inline", "trusted", "pure"}
 
 func startsKeyword(s string) string {
 	for _, k := range clauseKeywords {
@@ -358,12 +360,21 @@ func (cs *ContractSet) parse(src, file, pkgPath string) {
 		kw := startsKeyword(rc.text)
 		rest := strings.TrimSpace(strings.TrimPrefix(rc.text, kw))
 		mkClause := func(text string) *Clause {
+			var props []string
+			if strings.HasPrefix(text, "{") {
+				if k := strings.Index(text, "}"); k > 0 {
+					for _, p := range strings.FieldsFunc(text[1:k], func(r rune) bool { return r == ',' || r == ' ' }) {
+						props = append(props, p)
+					}
+					text = strings.TrimSpace(text[k+1:])
+				}
+			}
 			e, err := parseSpecExpr(text)
 			if err != nil {
 				cs.errf(file, rc.line, "%v", err)
 				return nil
 			}
-			return &Clause{Text: text, Expr: e, Line: rc.line, File: file}
+			return &Clause{Props: props, Text: text, Expr: e, Line: rc.line, File: file}
 		}
 		switch kw {
 		case "func":
@@ -482,6 +493,10 @@ func (cs *ContractSet) parse(src, file, pkgPath string) {
 				if c := mkClause(rest); c != nil {
 					cur.Ensures = append(cur.Ensures, c)
 				}
+			case "running":
+				if c := mkClause(rest); c != nil {
+					cur.Running = append(cur.Running, c)
+				}
 			case "modifies":
 				for _, p := range splitTopLevel(rest, ',') {
 					p = strings.TrimSpace(p)
@@ -502,7 +517,7 @@ func (cs *ContractSet) parse(src, file, pkgPath string) {
 					cs.errf(file, rc.line, "bad loop clause %q", rc.text)
 					continue
 				}
-				n := 0
+				n := 0 // loop 0 = default for every loop (generated-code contract)
 				fmt.Sscanf(f[0], "%d", &n)
 				ls := cur.Loops[n]
 				if ls == nil {
